@@ -165,6 +165,11 @@ Variables pdiv ppow patan2 : A -> A -> option A.
 Variable pmath : mathfn -> A -> option A.
 Variable pbessel : bkind -> A -> A -> option A.
 Variable bval : B A -> bool.                         (* bool(a < b) etc. *)
+(* which body the working tree has (decided by py/C24_ast.py from the source on every run):
+   cfix = Conditional.evaluate evaluates its condition at () (fixes/C24-conditional-component.diff),
+   efix = PermutationSymbol.evaluate returns a number (fixes/C24-permutation-symbol-number.diff);
+   false = the defective bodies of the pinned tree *)
+Variables cfix efix : bool.
 
 (* Terminal.evaluate *)
 Definition term_eval (k id : nat) (c ds : list nat) : option A :=
@@ -194,7 +199,8 @@ Fixpoint py_eval (iv : list (nat * nat)) (e : expr) (c ds : list nat) {struct e}
   | Identity _ => nod ds (match c with
                           | [a; b] => Some (if Nat.eqb a b then k1 else k0)
                           | _ => None end)
-  | PermSym _ => None                                  (* returns IntValue(..)/Zero(): not a number *)
+  | PermSym _ => if efix then nod ds (Some (perm_sign c))
+                 else None                             (* returns IntValue(..)/Zero(): not a number *)
   | Term k id _ => if Nat.eqb k KIND_SC then sc_eval c ds else term_eval k id c ds
   | Sum a b => nod ds (obind2 (py_eval iv a c []) (py_eval iv b c []) (fun x y => Some (k0 + x + y)))
   | Product a b => nod ds (obind2 (py_eval iv a [] []) (py_eval iv b [] []) (fun x y => Some (k1 * x * y)))
@@ -225,7 +231,7 @@ Fixpoint py_eval (iv : list (nat * nat)) (e : expr) (c ds : list nat) {struct e}
         end
       else None
   | Conditional cnd t f =>
-      nod ds (match py_evalc iv cnd c with            (* the value component goes to the condition *)
+      nod ds (match py_evalc iv cnd (if cfix then [] else c) with   (* defect: the value component *)
               | Some true => py_eval iv t c []
               | Some false => py_eval iv f c []
               | None => None
@@ -264,7 +270,8 @@ Definition scalar (e : expr) : bool := is_nil (shape e).
 
 Fixpoint wf (e : expr) : bool :=
   match e with
-  | Zero _ _ | IntV _ | RealV _ _ | CplxV _ _ _ _ | RatV _ _ | Identity _ | PermSym _ => true
+  | Zero _ _ | IntV _ | RealV _ _ | CplxV _ _ _ _ | RatV _ _ | Identity _ => true
+  | PermSym n => Nat.leb 1 n
   | Term k id sh => leqb sh (tsh k id)
   | Sum a b => wf a && wf b && leqb (shape a) (shape b)
   | Product a b | Division a b | Power a b | MinV a b | MaxV a b | Atan2 a b | Bessel _ a b =>
@@ -422,6 +429,9 @@ Proof.
   - (* RatV *) inv_nod E. inversion E; subst. reflexivity.
   - (* Identity *) inv_nod E. unfold cc. cbn [shape].
     destruct c as [|a [|b [|? ?]]]; try discriminate E. inversion E; subst. reflexivity.
+  - (* PermSym *) destruct efix; [|discriminate E]. inv_nod E. inversion E; subst.
+    cbn [wf] in W. apply Nat.leb_le in W. unfold cc. cbn [shape iterD den].
+    destruct n as [|n']; [lia|]. reflexivity.
   - (* Term *)
     cbn [wf] in W. apply leqb_eq in W. subst sh.
     destruct (Nat.eqb k KIND_SC) eqn:EK.
@@ -503,8 +513,8 @@ Proof.
     exact (G (e0 :: es0) k W E).
   - (* Conditional *) inv_nod E. cbn [wf] in W. split_and.
     match goal with H : leqb _ _ = true |- _ => apply leqb_eq in H; rename H into SH end.
-    destruct (py_evalc iv c0 c) as [b|] eqn:EC; [|discriminate E].
-    pose proof (IHcond c0 s iv c b) as Hb. cbn [iterD]. rewrite den_cond, H_kcond, <- Hb; auto.
+    destruct (py_evalc iv c0 (if cfix then [] else c)) as [b|] eqn:EC; [|discriminate E].
+    pose proof (IHcond c0 s iv (if cfix then [] else c) b) as Hb. cbn [iterD]. rewrite den_cond, H_kcond, <- Hb; auto.
     destruct b.
     + rewrite (cc_same (Conditional c0 e1 e2) e1 c eq_refl). apply (IH e1 s iv c [] v); auto.
     + assert (Ob : okc e2 c) by (eapply okc_same; [exact SH | exact OK]).
